@@ -79,7 +79,7 @@ def run(rep):
                     continue
                 rep.check(ok, "C15-R1", d, "cancel-becomes-shutdown", "the Canceled outcome of a reply channel (what a pending operation sees when the client stops) must be converted to Error::Shutdown here; consumers: %s" % how,
                           line=c.line, detail={"consumers": how, "err_arm": err_arm})
-    rep.floor("C15-R1", "oneshot receiver poll sites", n1, 27)
+    rep.floor("C15-R1", "oneshot receiver poll sites", n1, 12)
     for f in passthrough:
         rep.check(f in seen_pt, "C15-R1", f, "exception-exists", "tables/c15.toml lists a site that no longer exists", detail={})
     # the pass-through wrapper's callers convert
@@ -108,16 +108,16 @@ def run(rep):
                 kinds[k] = kinds.get(k, 0) + 1
                 rep.check("unwrap" not in how and "map_err->other" not in how, "C15-R2", d, "send-failure-handled", "a failed request / event send (peer gone) must become Error::Shutdown, be tested, or be discarded — never unwrapped or mapped to another error; consumers: %s" % how,
                           line=c.line, detail={"consumers": how, "class": k})
-    rep.floor("C15-R2", "unbounded_send sites", n2, 49)
+    rep.floor("C15-R2", "unbounded_send sites", n2, 24)
     rep.analysed["C15-R2:classes"] = kinds
-    rep.check(kinds.get("converted", 0) >= 30, "C15-R2", "aldrin::handle::Handle", "converted-floor", "at least 30 request sends convert a failure to Error::Shutdown today; found %s" % kinds, detail=kinds)
+    rep.check(kinds.get("converted", 0) >= 15, "C15-R2", "aldrin::handle::Handle", "converted-floor", "at least 15 request sends convert a failure to Error::Shutdown today; found %s" % kinds, detail=kinds)
 
     # ---- R3 ownership ------------------------------------------------------------------------------------
     rn = prog.one(r"^aldrin::client::Client::<T>::run$")
     rep.check(rn.locals[1]["ty"].startswith("aldrin::client::Client<"), "C15-R3", rn.def_, "run-consumes-client", "Client::run must take the client by value so that returning drops every pending reply sender; takes %s" % rn.locals[1]["ty"], detail={})
     a = prog.adt("aldrin::client::Client")
     flds = a["variants"][0]["fields"] if a else []
-    rep.floor("C15-R3", "fields of Client", len(flds), 30)
+    rep.floor("C15-R3", "fields of Client", len(flds), 20)
     for f in flds:
         shared = re.search(r"\b(Arc|Rc|Weak)<|&'static", f["ty"])
         rep.check(not shared, "C15-R3", "aldrin::client::Client", "owned:%s" % f["name"], "field %s of Client is shared (%s): state that outlives run() could keep a reply sender alive and leave its operation hanging" % (f["name"], f["ty"]), detail={"ty": f["ty"]})
